@@ -1,5 +1,6 @@
 import DFV.JsonField
 import DFV.Model.C10
+import DFV.Model.C10Raw
 /-! driver ops of property C10 (JSON glue: trusted, not model) -/
 namespace DFV.Drv
 open Lean DFV DFV.C10
@@ -208,6 +209,64 @@ def fmtJ (x : M Fmt) : Json :=
   | .ok .hdf5 => .str "hdf5"
   | .error _ => .str "err"
 
+/-! raw layer: `{"a":1}` absent, `{"o":1}` of another type, `{"v": …}` a value -/
+
+def avOf {α : Type} (f : Json → R α) (j : Json) : R (AV α) :=
+  match fldOpt j "v" with
+  | some v => do pure (.ok (← f v))
+  | none => match fldOpt j "o" with
+    | some _ => pure .other
+    | none => pure .absent
+
+def optOf {α : Type} (f : Json → R α) (j : Json) (k : String) : R (Option α) :=
+  match fldOpt j k with
+  | none => pure none
+  | some v => do pure (some (← f v))
+
+def wOf (j : Json) : R W := do
+  match (← natOfJson j) with
+  | 8 => pure .b8
+  | 16 => pure .b16
+  | 32 => pure .b32
+  | 64 => pure .b64
+  | k => throw s!"bad width {k}"
+
+def wJ (w : W) : Json := .num (JsonNumber.fromNat w.bits)
+
+def rawRegionOf (j : Json) : R RawRegion := do
+  pure { pmin := ← avOf numArrOf (← fld j "pmin"), pmax := ← avOf numArrOf (← fld j "pmax"),
+         dims := ← avOf (listOf strOfJson) (← fld j "dims"), ndim := ← avOf natOfJson (← fld j "ndim"),
+         units := ← avOf (listOf strOfJson) (← fld j "units"), tol := ← avOf numOf (← fld j "tol") }
+
+def tableOf (j : Json) : R (NK × List NumArr) := do
+  let k ← nkOf (← fld j "k")
+  let rows ← listOf (fun r => do
+    match k with
+    | .int => pure (NumArr.ints (← intsOf r))
+    | .float => pure (NumArr.floats (← listOf ratOfJson r))) (← fld j "rows")
+  pure (k, rows)
+
+def rawMeshOf (j : Json) : R RawMesh := do
+  pure { region := ← optOf rawRegionOf j "region", n := ← avOf intsOf (← fld j "n"), bc := ← avOf strOfJson (← fld j "bc"),
+         names := ← optOf (listOf strOfJson) j "names", table := ← optOf tableOf j "table" }
+
+def warrOf (j : Json) : R (W × DArr) := do pure ((← wOf (← fld j "w")), (← darrOf (← fld j "arr")))
+
+def rawFieldOf (j : Json) : R RawField := do
+  pure { mesh := ← optOf rawMeshOf j "mesh", nvdim := ← avOf intOfJson (← fld j "nvdim"),
+         vdims := ← avOf vdimsAttrOf (← fld j "vdims"), unit := ← avOf strOfJson (← fld j "unit"),
+         array := ← optOf warrOf j "array", valid := ← optOf varrOf j "valid" }
+
+def rawFileOf (j : Json) : R RawFile := do
+  pure { version := ← avOf strOfJson (← fld j "version"), type := ← avOf strOfJson (← fld j "type"),
+         field := ← optOf rawFieldOf j "field",
+         legacy := ← optOf (fun l => do pure ((← wOf (← fld l "w")), (← legacyOf (← fld l "legacy")))) j "legacy",
+         extras := ← strs j "extras" }
+
+def wfldOf (j : Json) : R WFld := do pure { f := ← tfldOf (← fld j "field"), w := ← wOf (← fld j "w") }
+
+def wfldJ (x : WFld) : Json := Json.mkObj [("field", tfldJ x.f), ("w", wJ x.w)]
+
 end C10J
 
 def sameRes (a b : M TFld) : Bool :=
@@ -266,6 +325,48 @@ def c10 (op : String) (j : Json) : Option (R Json) :=
         | .error _ => (acc.1, acc.2 ++ [false])) (h0, [])
       pure (Json.mkObj [("writes", boolsJ oks), ("array", darrJ h.array),
         ("loads", listJ (fun (k : Int) => resJ tfldJ (fieldLoadAt h (.idx k))) reads)])
+  | "rawload" => some do
+      -- the reader's accesses on the h5py view (entries absent / of another type / extra), with the width of the result
+      let r ← rawFileOf (← fld j "raw")
+      pure (resJ wfldJ (rawLoadW r))
+  | "rawsave" => some do
+      -- the file `to_file` leaves, as h5py shows it: names present, width of the dataset `array`; and what the reader
+      -- makes of it
+      let x ← wfldOf j
+      let r := rawSave x
+      pure (Json.mkObj [("names", strsJ r.entryNames),
+        ("w", match r.field with | some f => (match f.array with | some wa => wJ wa.1 | none => .null) | none => .null),
+        ("exact", .bool x.exactB),
+        ("load", resJ wfldJ (rawLoadW r))])
+  | "exact" => some do
+      -- is every entry of the array a value of the dtype of width w?  (entry by entry for real data)
+      let a ← darrOf (← fld j "data")
+      let w ← wOf (← fld j "w")
+      let flags : List Bool := match a.buf with
+        | .floats v => v.map (FFmt.ofW w).rep
+        | .complexes v => v.map fun z => (FFmt.ofW w).rep z.1 && (FFmt.ofW w).rep z.2
+        | .ints v => v.map fun i => decide (-(2 ^ (w.bits - 1) : Int) ≤ i ∧ i < 2 ^ (w.bits - 1))
+      pure (Json.mkObj [("ok", .bool (a.buf.exactB w)), ("flags", boolsJ flags)])
+  | "fs" => some do
+      -- a directory: optional files present beforehand, a history of to_file calls, then from_file on the given paths;
+      -- and the names of what each path holds at the end
+      let pre ← listOf (fun e => do pure ((← strOfJson (← fld e "path")), (← rawFileOf (← fld e "raw")))) (← fld j "pre")
+      let ws ← listOf (fun e => do pure ((← strOfJson (← fld e "path")), (← wfldOf e))) (← fld j "writes")
+      let reads ← listOf strOfJson (← fld j "reads")
+      let fs := fsRun pre ws
+      pure (Json.mkObj [("loads", listJ (fun (p : String) => resJ wfldJ (fsRead fs p)) reads),
+        ("names", listJ (fun (p : String) => match fsGet fs p with | some r => strsJ r.entryNames | none => .null) reads)])
+  | "mkmesh" => some do
+      -- `Mesh(region=…, n=…, bc=…, subregions={name: candidate Region …})`: the candidates come with their own names,
+      -- units and tolerance factor
+      let r ← tregOf (← fld j "region")
+      let n ← intsOf (← fld j "n")
+      let bc ← strOfJson (← fld j "bc")
+      let subs ← listOf (fun e => do pure ((← strOfJson (← fld e "name")), (← tregOf (← fld e "region")))) (← fld j "subs")
+      pure (resJ tmeshJ (TMesh.init r n bc subs))
+  | "invw" => some do
+      let f ← tfldOf (← fld j "field")
+      pure (Json.mkObj [("invw", .bool f.invWB), ("inv", .bool f.invB), ("rereadable", .bool f.mesh.rereadableB)])
   | "fmt" => some do
       let s ← strOfJson (← fld j "suffix")
       pure (Json.mkObj [("write", fmtJ (writeFmt s)), ("read", fmtJ (readFmt s))])
